@@ -45,7 +45,20 @@ func runLateWrong(c scenario, scale int) *rp.Fail {
 	cs := call(c.Op, serial)
 	f := farm.New()
 	defer f.Close()
+	sentinel := strings.HasSuffix(c.Path, "+sentinel")
+	c.Path = strings.TrimSuffix(c.Path, "+sentinel")
 	wrong := func(req []byte) []byte {
+		if sentinel {
+			// a reply of the right kind that says 'nothing here': event overwritten (0xff), no such card (0), no such profile (0)
+			b := make([]byte, 64)
+			copy(b[:8], req[:8])
+			switch c.Op {
+			case "GetEvent":
+				copy(b[8:12], req[8:12])
+				b[12] = 0xff
+			}
+			return b
+		}
 		other := call(map[bool]string{true: "GetStatus", false: "GetTime"}[c.Op == "GetTime"], serial)
 		return reply(spec.Request(other.Call))
 	}
@@ -88,7 +101,7 @@ func runLateWrong(c scenario, scale int) *rp.Fail {
 		if res.Panic != nil {
 			return rp.Failf("late-wrong-reply/panic", "%s panicked: %v", c.Op, res.Panic)
 		}
-		if res.Err == nil {
+		if res.Err == nil && !sentinel {
 			return rp.Failf("late-wrong-reply/success-without-reply", "%s (%s) succeeded although the only answer was the reply to another request", c.Op, c.Path)
 		}
 		if elapsed > T+T/4+200*time.Millisecond {
@@ -311,6 +324,59 @@ func (nullListener) OnConnected()          {}
 func (nullListener) OnEvent(*types.Status) {}
 func (nullListener) OnError(error) bool    { return true }
 
+// multicast-broadcast: the configured broadcast address is an IPv4 multicast group (239.255.x.y) and the client is bound to a
+// specific address; nobody answers. Broadcast-routed calls and discovery end within the timeout like any other unanswered
+// call, release their socket, and a second round works the same way (nothing is left locked).
+func runMulticast(c scenario, scale int) *rp.Fail {
+	T := time.Duration(c.TimeoutMs*scale) * time.Millisecond
+	port, err := farm.FreePort([4]byte{127, 0, 0, 1})
+	if err != nil {
+		return nil
+	}
+	bind, err := farm.FreePort([4]byte{127, 0, 0, 1})
+	if err != nil {
+		return nil
+	}
+	before := farm.Sockets()
+	for round, fixed := range []bool{false, true} {
+		cfg := hook.ClientCfg{TimeoutMs: int(T / time.Millisecond), BindIP: [4]byte{127, 0, 0, 1}, Debug: c.Debug, HasBroadcast: true, BroadcastIP: [4]byte{239, 255, 60, 17}, BroadcastPort: port}
+		if fixed {
+			cfg.BindPort = bind
+		}
+		u := hook.Real(cfg)
+		for i := 0; i < 2; i++ {
+			t0 := time.Now()
+			done := make(chan any, 1)
+			go func() {
+				defer func() { done <- recover() }()
+				if c.Op == "GetDevices" {
+					u.GetDevices()
+				} else {
+					api.Invoke(u, call(c.Op, 405419896))
+				}
+			}()
+			select {
+			case p := <-done:
+				if p != nil {
+					return rp.Failf("multicast-broadcast/panic", "%s panicked: %v", c.Op, p)
+				}
+				if el := time.Since(t0); el > T+T/4+400*time.Millisecond {
+					return rp.Failf("multicast-broadcast/overrun", "%s to the multicast group 239.255.60.17 (bound to 127.0.0.1, fixed bind port: %v, call %d) returned after %v; the timeout is %v", c.Op, fixed, 2*round+i+1, el, T)
+				}
+			case <-time.After(2*T + 8*time.Second):
+				return rp.Failf("multicast-broadcast/hang", "%s to the multicast group 239.255.60.17 (bound to 127.0.0.1, fixed bind port: %v, call %d) has not returned; the timeout is %v", c.Op, fixed, 2*round+i+1, T)
+			}
+		}
+	}
+	for deadline := time.Now().Add(2 * time.Second); ; time.Sleep(5 * time.Millisecond) {
+		if s := farm.Sockets(); s <= before {
+			return nil
+		} else if time.Now().After(deadline) {
+			return rp.Failf("resources/socket-leak", "%d socket descriptors before the calls to a multicast group, %d after them", before, s)
+		}
+	}
+}
+
 func runScenario(c scenario, scale int) *rp.Fail {
 	T := time.Duration(c.TimeoutMs*scale) * time.Millisecond
 	serial := uint32(405419896)
@@ -382,6 +448,8 @@ func runScenario(c scenario, scale int) *rp.Fail {
 		return runPeerHolds(c, scale)
 	case "no-descriptors":
 		return runNoDescriptors(c, scale)
+	case "multicast-broadcast":
+		return runMulticast(c, scale)
 	}
 	u := hook.Real(cfg)
 	t0 := time.Now()
@@ -529,7 +597,7 @@ func runSendFails(c scenario, scale int) *rp.Fail {
 }
 
 func checkScenario(c scenario) *rp.Fail {
-	if c.Kind == "port-released" || c.Kind == "send-fails" || c.Kind == "late-wrong-reply" || c.Kind == "tcp-peer-holds-connection" || c.Kind == "no-descriptors" {
+	if c.Kind == "port-released" || c.Kind == "send-fails" || c.Kind == "late-wrong-reply" || c.Kind == "tcp-peer-holds-connection" || c.Kind == "no-descriptors" || c.Kind == "multicast-broadcast" {
 		ev.Case("scenario/"+c.Kind, true, fmt.Sprintf("%+v", c))
 	} else {
 		ev.Case(fmt.Sprintf("scenario/%s/reply-%s", c.Kind, map[bool]string{true: "in-time", false: "after-deadline"}[c.ReplyPct <= 80]), true, fmt.Sprintf("%+v", c))
@@ -567,6 +635,12 @@ func sweepScenarios(yield func(scenario) bool) {
 	}
 	cases = append(cases, scenario{Kind: "tcp-peer-holds-connection", Op: "GetTime", TimeoutMs: 4000, ReplyPct: 1}, scenario{Kind: "tcp-peer-holds-connection", Op: "OpenDoor", TimeoutMs: 4000, ReplyPct: 0, Debug: true},
 		scenario{Kind: "tcp-peer-holds-connection", Op: "DeleteCard", TimeoutMs: 4000, ReplyPct: 0, Path: "any"}, scenario{Kind: "tcp-peer-holds-connection", Op: "GetStatus", TimeoutMs: 4000, ReplyPct: 1, Path: "(empty)"})
+	// a late reply of the right kind that says 'nothing here' (event overwritten, no such card / profile), then silence: whatever the
+	// call makes of it, the timeout bounds the whole call
+	for i, op := range []string{"GetEvent", "GetCardByID", "GetTimeProfile"} {
+		cases = append(cases, scenario{Kind: "late-wrong-reply", Op: op, Path: []string{"udp", "tcp", "broadcast"}[i] + "+sentinel", TimeoutMs: 600, ReplyPct: 70})
+	}
+	cases = append(cases, scenario{Kind: "multicast-broadcast", Op: "GetTime", TimeoutMs: 400}, scenario{Kind: "multicast-broadcast", Op: "GetDevices", TimeoutMs: 300, Debug: true})
 	cases = append(cases, scenario{Kind: "no-descriptors", Op: "GetTime", TimeoutMs: 300}, scenario{Kind: "no-descriptors", Op: "OpenDoor", TimeoutMs: 200, Debug: true})
 	if ev.Thorough() {
 		for i, path := range []string{"udp", "tcp", "broadcast"} {
